@@ -26,13 +26,14 @@ theorem decode_encode (hasRegs : Bool) (st : EncState) (abi : Abi) (args : List 
     decompileCall abi raw = .ok (args, []) ∧ w = [] := by
   have hbe := validAbi_blobEndLast abi hv
   have ha0 := validAbi_arg0_tail abi hv
+  have hattr := validAbi_strAttrs abi hv
   unfold encodeArgs at he
   split at he
   · cases he
   · cases abi with
     | nil =>
       simp only [ArgsOk] at ha
-      obtain ⟨o, ho, hw, hm, _, hd⟩ := decLoop_encLoop [] args st (by simp) rfl ha
+      obtain ⟨o, ho, hw, hm, _, hd⟩ := decLoop_encLoop [] 0 args st (by simp) (by simp) (by simp) rfl ha
       simp only [encodePlain, ho, Outcome.ok.injEq, Prod.mk.injEq] at he
       obtain ⟨hraw, hww, _⟩ := he
       obtain ⟨full, hdec, hdp, hnz⟩ := hd none
@@ -59,22 +60,27 @@ theorem decode_encode (hasRegs : Bool) (st : EncState) (abi : Abi) (args : List 
               | true => simp at ha
               | false =>
                 simp only [Bool.and_eq_true, Bool.not_eq_true'] at ha
-                obtain ⟨⟨⟨_, hfit⟩, hloop⟩, hnoreg⟩ := ha
+                obtain ⟨⟨hfit, hloop⟩, hnoreg⟩ := ha
                 simp only [blobEndLast, Bool.and_eq_true] at hbe
-                obtain ⟨o, ho, hw, hm, hz, hd⟩ := decLoop_encLoop es as st ha0 hbe.2 hloop
+                have hcnt : 0 + (es.filter Enc.contributes).length ≤ 16 := by
+                  simp only [List.filter_cons, Enc.contributes, Enc.isPadding, Bool.not_false, if_true,
+                    List.length_cons] at hn
+                  omega
+                obtain ⟨o, ho, hw, hm, hz, hd⟩ := decLoop_encLoop es 0 as st hcnt ha0
+                  (fun e he => hattr e (List.mem_cons_of_mem _ he)) hbe.2 hloop
                 have hmz : o.mask = 0 := hz (by
                   intro x hx
                   cases hxr : x.isReg with
                   | false => rfl
                   | true => rw [List.any_eq_true.mpr ⟨x, hx, hxr⟩] at hnoreg; cases hnoreg)
-                simp only [Arg.isReg, Bool.false_eq_true, if_false, expectInt, encodePlain, ho,
+                simp only [Arg.isReg, Bool.false_eq_true, if_false, expectInt, hfit, Bool.not_true, encodePlain, ho,
                   Outcome.ok.injEq, Prod.mk.injEq] at he
                 obtain ⟨hraw, hww, _⟩ := he
                 obtain ⟨full, hdec, hdp, hnz⟩ := hd none
                 subst hraw
                 refine ⟨decompileCall_of_decLoop _ _ (.int v false :: full) _ none ?_ ?_ ?_, ?_⟩
                 · simp only [decLoop, Enc.isPadding, Bool.false_eq_true, if_false, decodeOne, hmz,
-                    Nat.zero_mod, Nat.zero_div, arg0_roundtrip v hfit]
+                    Nat.zero_mod, Nat.zero_div]
                   simp only [hmz] at hdec
                   simp [hdec]
                 · simp [dropPadding, Enc.isPadding, hdp]
@@ -95,7 +101,7 @@ theorem decode_encode (hasRegs : Bool) (st : EncState) (abi : Abi) (args : List 
           cases he' with
           | head => exact h0'
           | tail _ h => exact ha0 e' h
-        obtain ⟨o, ho, hw, hm, _, hd⟩ := decLoop_encLoop (e :: es) args st hall hbe ha
+        obtain ⟨o, ho, hw, hm, _, hd⟩ := decLoop_encLoop (e :: es) 0 args st (by omega) hall hattr hbe ha
         simp only [encodePlain, ho, Outcome.ok.injEq, Prod.mk.injEq] at he
         obtain ⟨hraw, hww, _⟩ := he
         obtain ⟨full, hdec, hdp, hnz⟩ := hd none
@@ -111,11 +117,13 @@ theorem decode_encode (hasRegs : Bool) (st : EncState) (abi : Abi) (args : List 
 /-- Under the same hypotheses the encoder does succeed (so `decode_encode` is not vacuous):
 no error, no panic, in a language with registers or for register-free argument lists. -/
 theorem encode_ok (hasRegs : Bool) (st : EncState) (abi : Abi) (args : List Arg)
-    (hv : validAbi abi = true) (ha : ArgsOk st abi args = true)
+    (hv : validAbi abi = true) (hn : (abi.filter Enc.contributes).length ≤ 16)
+    (ha : ArgsOk st abi args = true)
     (hr : hasRegs = true ∨ args.any Arg.isReg = false) :
     ∃ raw st', encodeArgs hasRegs st abi args = .ok (raw, [], st') := by
   have hbe := validAbi_blobEndLast abi hv
   have ha0 := validAbi_arg0_tail abi hv
+  have hattr := validAbi_strAttrs abi hv
   have hguard : (!hasRegs && args.any Arg.isReg) = false := by
     rcases hr with h | h <;> simp [h]
   unfold encodeArgs
@@ -123,7 +131,7 @@ theorem encode_ok (hasRegs : Bool) (st : EncState) (abi : Abi) (args : List Arg)
   cases abi with
   | nil =>
     simp only [ArgsOk] at ha
-    obtain ⟨o, ho, hw, _, _, _⟩ := decLoop_encLoop [] args st (by simp) rfl ha
+    obtain ⟨o, ho, hw, _, _, _⟩ := decLoop_encLoop [] 0 args st (by simp) (by simp) (by simp) rfl ha
     exact ⟨⟨o.blob, o.mask % 65536, none⟩, o.st, by simp only [encodePlain, ho, hw]⟩
   | cons e es =>
     simp only [List.drop_one, List.tail_cons] at ha0
@@ -142,9 +150,15 @@ theorem encode_ok (hasRegs : Bool) (st : EncState) (abi : Abi) (args : List Arg)
             | false =>
               simp only [Bool.and_eq_true, Bool.not_eq_true'] at ha
               simp only [blobEndLast, Bool.and_eq_true] at hbe
-              obtain ⟨o, ho, hw, _, _, _⟩ := decLoop_encLoop es as st ha0 hbe.2 ha.1.2
-              exact ⟨⟨o.blob, o.mask % 65536, some (toSigned 2 (wrapTo 2 v))⟩, o.st,
-                by simp only [Arg.isReg, Bool.false_eq_true, if_false, expectInt, encodePlain, ho, hw]⟩
+              have hcnt : 0 + (es.filter Enc.contributes).length ≤ 16 := by
+                simp only [List.filter_cons, Enc.contributes, Enc.isPadding, Bool.not_false, if_true,
+                  List.length_cons] at hn
+                omega
+              obtain ⟨o, ho, hw, _, _, _⟩ := decLoop_encLoop es 0 as st hcnt ha0
+                (fun e he => hattr e (List.mem_cons_of_mem _ he)) hbe.2 ha.1.2
+              exact ⟨⟨o.blob, o.mask % 65536, some v⟩, o.st,
+                by simp only [Arg.isReg, Bool.false_eq_true, if_false, expectInt, ha.1.1, Bool.not_true,
+                  encodePlain, ho, hw]⟩
           | float b r => simp at ha
           | str s => simp at ha
       | jumpOffset => simp [Enc.isArg0] at h0
@@ -160,7 +174,7 @@ theorem encode_ok (hasRegs : Bool) (st : EncState) (abi : Abi) (args : List Arg)
         cases he' with
         | head => exact h0'
         | tail _ h => exact ha0 e' h
-      obtain ⟨o, ho, hw, _, _, _⟩ := decLoop_encLoop (e :: es) args st hall hbe ha
+      obtain ⟨o, ho, hw, _, _, _⟩ := decLoop_encLoop (e :: es) 0 args st (by omega) hall hattr hbe ha
       exact ⟨⟨o.blob, o.mask % 65536, none⟩, o.st, by simp only [encodePlain, ho, hw]⟩
 
 /-- the hypotheses of `decode_encode` are satisfiable by a non-trivial input: padding in the
@@ -192,6 +206,7 @@ registers: compiling the decoded argument list reproduces blob and mask exactly,
 warnings, in every furigana state. -/
 theorem encode_decode_partial (st : EncState) (abi : Abi) (raw : Raw) (full : List Arg)
     (hsf : strFree abi = true) (hna : noArg0 abi = true)
+    (hn : (abi.filter Enc.contributes).length ≤ 16)
     (hd : decodeArgs abi raw = .ok (full, []))
     (hp : nonzeroPadding abi full = false)
     (hm : maskOk abi raw.mask = true) (hm16 : raw.mask < 65536) (ha0 : raw.arg0 = none) :
@@ -209,7 +224,7 @@ theorem encode_decode_partial (st : EncState) (abi : Abi) (raw : Raw) (full : Li
       cases hr : o.rest with
       | nil => rfl
       | cons x xs => simp [hr] at hwarn
-    obtain ⟨_, _, _, blob, hblob, henc⟩ := encLoop_decLoop abi raw.blob raw.mask raw.arg0 o st hsf hna h hp hm
+    obtain ⟨_, _, _, blob, hblob, henc⟩ := encLoop_decLoop abi 0 raw.blob raw.mask raw.arg0 o st (by omega) hsf hna h hp hm
     rw [hrest, List.append_nil] at hblob
     have hraw : raw = ⟨blob, raw.mask % 65536, none⟩ := by
       cases raw with
@@ -295,17 +310,17 @@ theorem bitsToNat_testBit (bs : List Bool) (k : Nat) : (bitsToNat bs).testBit k 
       have : ((if b = true then 1 else 0) + 2 * bitsToNat bs) / 2 = bitsToNat bs := by split <;> omega
       rw [this, ih]
 
-theorem encLoop_mask (es : Abi) : ∀ (args : List Arg) (st : EncState) (o : EncOut),
-    encLoop es args st = .ok o → o.mask = bitsToNat (regFlags es args) := by
+theorem encLoop_mask (es : Abi) : ∀ (k : Nat) (args : List Arg) (st : EncState) (o : EncOut),
+    encLoop k es args st = .ok o → o.mask = bitsToNat (regFlags es args) := by
   induction es with
-  | nil => intro args st o h; simp only [encLoop, Outcome.ok.injEq] at h; subst h; rfl
+  | nil => intro k args st o h; simp only [encLoop, Outcome.ok.injEq] at h; subst h; rfl
   | cons e es ih =>
-    intro args st o h
+    intro k args st o h
     by_cases hp : e.isPadding = true
     · simp only [encLoop, hp, if_true] at h
       simp only [regFlags, hp, if_true]
-      cases h2 : encLoop es args st with
-      | ok o2 => rw [h2] at h; simp only [Outcome.ok.injEq] at h; subst h; exact ih args st o2 h2
+      cases h2 : encLoop k es args st with
+      | ok o2 => rw [h2] at h; simp only [Outcome.ok.injEq] at h; subst h; exact ih k args st o2 h2
       | err c => rw [h2] at h; cases h
       | panic p => rw [h2] at h; cases h
     · have hp' : e.isPadding = false := by simpa using hp
@@ -314,15 +329,17 @@ theorem encLoop_mask (es : Abi) : ∀ (args : List Arg) (st : EncState) (o : Enc
       | cons a as =>
         simp only [encLoop, hp', Bool.false_eq_true, if_false] at h
         simp only [regFlags, hp', Bool.false_eq_true, if_false, bitsToNat]
+        split at h
+        · cases h
         cases h1 : encodeOne st e a with
         | ok r =>
           obtain ⟨bytes, st1⟩ := r
           rw [h1] at h
           simp only at h
-          cases h2 : encLoop es as st1 with
+          cases h2 : encLoop (k + 1) es as st1 with
           | ok o2 =>
             rw [h2] at h; simp only [Outcome.ok.injEq] at h; subst h
-            simp only [ih as st1 o2 h2]
+            simp only [ih (k + 1) as st1 o2 h2]
           | err c => rw [h2] at h; cases h
           | panic p => rw [h2] at h; cases h
         | err c => rw [h1] at h; cases h
@@ -330,10 +347,10 @@ theorem encLoop_mask (es : Abi) : ∀ (args : List Arg) (st : EncState) (o : Enc
 
 /-- Bit `k` of the mask the encoder builds belongs to the `k`-th non-padding parameter: it is set
 iff that argument is a register and the encoding is not always immediate. -/
-theorem mask_bits_positions (es : Abi) (args : List Arg) (st : EncState) (o : EncOut)
-    (h : encLoop es args st = .ok o) (k : Nat) :
+theorem mask_bits_positions (es : Abi) (k0 : Nat) (args : List Arg) (st : EncState) (o : EncOut)
+    (h : encLoop k0 es args st = .ok o) (k : Nat) :
     o.mask.testBit k = (regFlags es args).getD k false := by
-  rw [encLoop_mask es args st o h, bitsToNat_testBit]
+  rw [encLoop_mask es k0 args st o h, bitsToNat_testBit]
 
 /-- register flag the decoder gives to the non-padding parameters, in order -/
 def decFlags : Abi → Nat → List Bool
@@ -437,7 +454,7 @@ example : trimFirstNul ([0x61, 0x62] ++ 0 :: zeros 5) true = ([0x61, 0x62], []) 
 /-- a length-prefixed string is written as its total length (a multiple of the block size that
 leaves room for the NUL) followed by exactly that many bytes -/
 theorem pascal_length (st : EncState) (bs : Nat) (mask : ByteMask) (furibug : Bool) (s out : Bytes)
-    (st2 : EncState) (hok : strLayoutOk st (.pascal bs) furibug s = true)
+    (st2 : EncState) (hbs : bs ≠ 0) (hok : strLayoutOk st (.pascal bs) furibug s = true)
     (he : encodeStr st (.pascal bs) mask furibug s = .ok (out, st2)) :
     4 ≤ out.length ∧ leNat (out.take 4) = out.length - 4 ∧ (out.length - 4) % bs = 0 ∧
       s.length + 1 ≤ out.length - 4 := by
@@ -460,7 +477,6 @@ theorem pascal_length (st : EncState) (bs : Nat) (mask : ByteMask) (furibug : Bo
     have hfb : (fbOf st furibug).length = (if furibug = true then (st.getD []).length else 0) := by
       simp [fbOf]; split <;> simp
     simp only [strLayoutOk, Bool.and_eq_true, decide_eq_true_eq] at hok
-    have hbs : bs ≠ 0 := by omega
     -- shape of the padded string
     have hpad : e2.length ≤ e3.length ∧ e3.length < e2.length + bs + 1 ∧ e3.length % bs = 0 := by
       simp only [strPad, hbs, if_false] at hp
@@ -494,64 +510,139 @@ theorem pascal_length (st : EncState) (bs : Nat) (mask : ByteMask) (furibug : Bo
 
 /-! ## diagnosis of misfits
 
-`misfit_diagnosed_full` is what the property asks of the encoder.  It is **false of the unchanged
-code**: the three theorems after it are machine-checked counterexamples on the model, replayed
-on the implementation by the harness (failure signatures `not-diagnosed int-misfit`,
-`panic ... remainder with a divisor of zero`, `register-flag-lost-beyond-16-parameters`,
-`decode-of-encode-differs furibug-bytes-follow-nulless-string`).  What does hold is proved as
-`misfit_diagnosed_partial` (oversize strings) and `const_position_rejects_register`. -/
+What the property asks of the encoder ("values that do not fit their declared width, strings that
+do not fit their buffer, registers where only immediates are allowed are diagnosed rather than
+silently changed") is `misfit_diagnosed` below, proved for the whole encoding enum.  Before the
+repairs of `encode_args` / `string_from_attrs` four counterexamples were machine-checked here
+(integer truncated by an `as` cast, `bs=0` dividing by zero, the register bit of parameter 17+
+falling off the mask, furigana bytes appended to a `nulless` string); their positive forms are
+`int_misfit_is_error`, `validAbi_rejects_zero_block`, `reg_beyond_16_is_error` /
+`register_flags_never_lost`, `validAbi_rejects_nulless_furibug`. -/
 
-/-- every call whose arguments are of the parameters' types but not `ArgsOk` is answered with an
-error (or at least one warning), never with silently different bytes and never with a panic -/
-def misfit_diagnosed_full : Prop :=
-  ∀ (st : EncState) (abi : Abi) (args : List Arg), validAbi abi = true →
-    args.length = (abi.filter Enc.contributes).length → ArgsOk st abi args = false →
-    match compileCall true st abi args with
-    | .ok (_, w, _) => w ≠ []
-    | .err _ => True
-    | .panic _ => False
+/-- an integer outside the range of its 1- or 2-byte field is an error, in every position, for
+registers and immediates alike -/
+theorem int_misfit_is_error (st : EncState) (w : IntW) (signed imm : Bool) (v : Int) (reg : Bool)
+    (hw : w ≠ .w4) (h : fitsInt w signed v = false) :
+    encodeOne st (.int w signed false imm) (.int v reg) = .err "integer argument does not fit" := by
+  cases w <;> simp_all [encodeOne, expectInt]
 
-/-- **Finding** (false of the unchanged code): an integer wider than its field is cast, not
-diagnosed.  `s` parameter, value 70000: two bytes `70 11` (= 4464), no warning, no error. -/
-theorem int_misfit_silently_truncated :
-    ArgsOk none [.int .w2 true false false] [.int 70000 false] = false ∧
-    compileCall true none [.int .w2 true false false] [.int 70000 false]
-      = .ok (⟨[0x70, 0x11], 0, none⟩, [], none) ∧
-    decompileCall [.int .w2 true false false] ⟨[0x70, 0x11], 0, none⟩ = .ok ([.int 4464 false], []) := by
-  decide
+example : compileCall true none [.int .w2 true false false] [.int 70000 false]
+    = .err "integer argument does not fit" := by decide
 
-/-- **Finding**: `bs=0` passes the validator and makes the encoder compute `len % 0`. -/
-theorem zero_block_size_panics :
-    validAbi [.str (.toBlobEnd 0) ⟨0, 0, 0⟩ false] = true ∧
-    compileCall true none [.str (.toBlobEnd 0) ⟨0, 0, 0⟩ false] [.str [0x61]]
-      = .panic "attempt to calculate the remainder with a divisor of zero" := by
-  decide
+/-- the `arg0` header field is an `i16`: anything else is an error -/
+theorem arg0_misfit_is_error (st : EncState) (w : IntW) (signed imm : Bool) (es : Abi) (v : Int)
+    (as : List Arg) (h : fitsInt .w2 true v = false) :
+    encodeArgs true st (.int w signed true imm :: es) (.int v false :: as)
+      = .err "integer argument does not fit" := by
+  simp [encodeArgs, Enc.isArg0, Arg.isReg, expectInt, h]
 
-theorem misfit_diagnosed_full_false : ¬ misfit_diagnosed_full := by
-  intro h
-  have := h none [.int .w2 true false false] [.int 70000 false] (by decide) (by decide) (by decide)
-  rw [int_misfit_silently_truncated.2.1] at this
-  exact this rfl
+/-- `bs=0` is rejected when the signature is parsed -/
+theorem validAbi_rejects_zero_block (abi : Abi) (m : ByteMask) (f : Bool)
+    (h : .str (.toBlobEnd 0) m f ∈ abi ∨ .str (.pascal 0) m f ∈ abi) : validAbi abi = false := by
+  cases hv : validAbi abi with
+  | false => rfl
+  | true =>
+    have hattr := validAbi_strAttrs abi hv
+    rcases h with h | h <;> have := hattr _ h <;> simp [Enc.strAttrsOk] at this
 
-/-- **Finding**: `len=N;nulless;furibug` after a furigana line: the pending bytes are appended
-without a separating NUL and come back as part of the text (`"A"` is read back as `"A|"`). -/
-theorem furibug_after_nulless_changes_text :
-    validAbi [.str (.fixed 4 false) ⟨0, 0, 0⟩ true, .str (.fixed 8 true) ⟨0, 0, 0⟩ true] = true ∧
-    encodeArgs true none [.str (.fixed 4 false) ⟨0, 0, 0⟩ true, .str (.fixed 8 true) ⟨0, 0, 0⟩ true]
-        [.str [0x7C], .str [0x41]]
-      = .ok (⟨[124, 0, 0, 0, 65, 124, 0, 0, 0, 0, 0, 0], 0, none⟩, [], none) ∧
-    decompileCall [.str (.fixed 4 false) ⟨0, 0, 0⟩ true, .str (.fixed 8 true) ⟨0, 0, 0⟩ true]
-        ⟨[124, 0, 0, 0, 65, 124, 0, 0, 0, 0, 0, 0], 0, none⟩
-      = .ok ([.str [0x7C], .str [0x41, 0x7C]], []) := by
-  decide
+example : validAbi [.str (.toBlobEnd 0) ⟨0, 0, 0⟩ false] = false
+    ∧ validAbi [.int .w4 true false false, .str (.pascal 0) ⟨1, 2, 3⟩ true] = false := by decide
 
-/-- **Finding** (beyond the 16 parameters the property names): the register bit of the 17th
-parameter falls off the 16-bit mask; nothing is reported (the "too many arguments" check of
-`encode_args` compares `trailing_zeros` of a `u16` with 16 using `>` and can never fire). -/
-theorem reg_flag_lost_beyond_16 :
-    validAbi (List.replicate 17 (.int .w4 true false false)) = true ∧
-    (match encodeArgs true none (List.replicate 17 (.int .w4 true false false))
-        (List.replicate 16 (.int 1 false) ++ [.int 2 true]) with
+/-- `nulless` together with `furibug` is rejected when the signature is parsed -/
+theorem validAbi_rejects_nulless_furibug (abi : Abi) (len : Nat) (m : ByteMask)
+    (h : .str (.fixed len true) m true ∈ abi) : validAbi abi = false := by
+  cases hv : validAbi abi with
+  | false => rfl
+  | true => have := validAbi_strAttrs abi hv _ h; simp [Enc.strAttrsOk] at this
+
+example : validAbi [.str (.fixed 4 false) ⟨0, 0, 0⟩ true, .str (.fixed 8 true) ⟨0, 0, 0⟩ true] = false := by decide
+
+/-- the mask the loop returns never needs more bits than are left: nothing is lost by storing it
+in the `u16` -/
+theorem encLoop_mask_lt (es : Abi) : ∀ (k : Nat) (args : List Arg) (st : EncState) (o : EncOut),
+    encLoop k es args st = .ok o → o.mask < 2 ^ (16 - k) := by
+  induction es with
+  | nil =>
+    intro k args st o h
+    simp only [encLoop, Outcome.ok.injEq] at h; subst h
+    exact Nat.pow_pos (by omega)
+  | cons e es ih =>
+    intro k args st o h
+    by_cases hp : e.isPadding = true
+    · simp only [encLoop, hp, if_true] at h
+      cases h2 : encLoop k es args st with
+      | ok o2 => rw [h2] at h; simp only [Outcome.ok.injEq] at h; subst h; exact ih k args st o2 h2
+      | err c => rw [h2] at h; cases h
+      | panic p => rw [h2] at h; cases h
+    · have hp' : e.isPadding = false := by simpa using hp
+      cases args with
+      | nil => simp [encLoop, hp'] at h
+      | cons a as =>
+        simp only [encLoop, hp', Bool.false_eq_true, if_false] at h
+        split at h
+        · cases h
+        · rename_i hfull
+          cases h1 : encodeOne st e a with
+          | ok r =>
+            obtain ⟨bytes, st1⟩ := r
+            rw [h1] at h; simp only at h
+            cases h2 : encLoop (k + 1) es as st1 with
+            | ok o2 =>
+              rw [h2] at h; simp only [Outcome.ok.injEq] at h; subst h
+              have hm := ih (k + 1) as st1 o2 h2
+              simp only [Bool.and_eq_true, decide_eq_true_eq, not_and] at hfull
+              by_cases hk : 16 ≤ k
+              · -- no bits left: the argument is not a register, and neither is anything after it
+                have hr : a.isReg = false := by
+                  cases hr : a.isReg with
+                  | false => rfl
+                  | true => exact absurd hk (hfull hr)
+                have h0 : 16 - (k + 1) = 0 := by omega
+                have h1' : 16 - k = 0 := by omega
+                rw [h0] at hm
+                simp [hr, h1']; omega
+              · have : 2 ^ (16 - k) = 2 * 2 ^ (16 - (k + 1)) := by
+                  have : 16 - k = (16 - (k + 1)) + 1 := by omega
+                  rw [this, Nat.pow_succ]; omega
+                simp only [this]
+                split <;> omega
+            | err c => rw [h2] at h; cases h
+            | panic p => rw [h2] at h; cases h
+          | err c => rw [h1] at h; cases h
+          | panic p => rw [h1] at h; cases h
+
+/-- **Every register flag reaches the file**: whenever `encode_args` succeeds, bit `j` of the
+stored mask is exactly the register flag of the `j`-th non-padding parameter, for every `j`
+(there is no parameter count beyond which flags are dropped). -/
+theorem register_flags_never_lost (st : EncState) (es : Abi) (args : List Arg) (a0 : Option Int)
+    (raw : Raw) (w : List String) (st' : EncState)
+    (h : encodePlain st es args a0 = .ok (raw, w, st')) (j : Nat) :
+    raw.mask.testBit j = (regFlags es args).getD j false := by
+  simp only [encodePlain] at h
+  cases h1 : encLoop 0 es args st with
+  | ok o =>
+    rw [h1] at h
+    simp only [Outcome.ok.injEq, Prod.mk.injEq] at h
+    obtain ⟨hraw, _, _⟩ := h
+    subst hraw
+    have hlt := encLoop_mask_lt es 0 args st o h1
+    have : o.mask % 65536 = o.mask := Nat.mod_eq_of_lt (by simpa using hlt)
+    simp only [this]
+    exact mask_bits_positions es 0 args st o h1 j
+  | err c => rw [h1] at h; cases h
+  | panic p => rw [h1] at h; cases h
+
+/-- a register argument after the 16 mask bits are used up is an error
+("too many arguments in instruction!"); immediates there are fine -/
+theorem reg_beyond_16_is_error (k : Nat) (e : Enc) (es : Abi) (a : Arg) (as : List Arg) (st : EncState)
+    (hk : 16 ≤ k) (hp : e.isPadding = false) (hr : a.isReg = true) :
+    encLoop k (e :: es) (a :: as) st = .err "too many arguments in instruction" := by
+  simp [encLoop, hp, hr, hk]
+
+example :
+    encodeArgs true none (List.replicate 17 (.int .w4 true false false))
+        (List.replicate 16 (.int 1 false) ++ [.int 2 true]) = .err "too many arguments in instruction" ∧
+    (match encodeArgs true none (List.replicate 17 (.int .w4 true false false)) (List.replicate 17 (.int 1 false)) with
      | .ok (raw, w, _) => raw.mask == 0 && w.isEmpty
      | _ => false) = true := by
   decide
@@ -589,6 +680,323 @@ theorem misfit_diagnosed_partial (st : EncState) (len : Nat) (nulless : Bool) (m
 example : encodeStr none (.fixed 4 false) ⟨0, 0, 0⟩ false [0x61, 0x62, 0x63, 0x64]
     = .err "string argument too large for buffer" := by decide
 
+/-! ### the general statement -/
+
+/-- what the front end guarantees about one argument of a call that passed `checkCall`: the
+parameter's type, a register only where the signature allows one, an `i32`, a NUL-free string -/
+def argTyped (e : Enc) (a : Arg) : Bool :=
+  a.ty == e.ty && (e.regOk || !a.isReg) &&
+  match a with
+  | .int v _ => i32Range v
+  | .str s => !s.contains 0
+  | .float _ _ => true
+
+/-- a length-prefixed string stays below 2^32 bytes (the prefix is a `u32`) -/
+def argSane (st : EncState) : Enc → Arg → Bool
+  | .str (.pascal bs) _ furibug, .str s =>
+    decide (s.length + 1 + (if furibug then (st.getD []).length else 0) + bs < 4294967296)
+  | _, _ => true
+
+/-- the call as the loop sees it: arity, `argTyped`, `argSane` (furigana state threaded) -/
+def callTyped : EncState → Abi → List Arg → Bool
+  | _, [], args => args.isEmpty
+  | st, e :: es, args =>
+    if e.isPadding then callTyped st es args else
+    match args with
+    | [] => false
+    | a :: as => argTyped e a && argSane st e a && callTyped (stateAfter st e a) es as
+
+theorem encodeOne_no_panic (st : EncState) (e : Enc) (a : Arg)
+    (ht : argTyped e a = true) (hattr : e.strAttrsOk = true) (h0 : e.isArg0 = false)
+    (hp : e.isPadding = false) : ∀ p, encodeOne st e a ≠ .panic p := by
+  intro p
+  cases e with
+  | int w s z imm =>
+    cases z with
+    | true => simp [Enc.isArg0] at h0
+    | false =>
+      cases a <;> simp [argTyped, Arg.ty, Enc.ty] at ht
+      simp only [encodeOne, expectInt]; split <;> simp
+  | jumpOffset => cases a <;> simp [argTyped, Arg.ty, Enc.ty] at ht; simp [encodeOne, expectInt]
+  | jumpTime => cases a <;> simp [argTyped, Arg.ty, Enc.ty] at ht; simp [encodeOne, expectInt]
+  | padding w => simp [Enc.isPadding] at hp
+  | float imm => cases a <;> simp [argTyped, Arg.ty, Enc.ty] at ht; simp [encodeOne, expectFloat]
+  | str size mask furibug =>
+    cases a <;> simp [argTyped, Arg.ty, Enc.ty] at ht
+    rename_i s
+    simp only [encodeOne, expectString, encodeStr]
+    generalize strBody st size furibug s = sb
+    obtain ⟨e2, st1⟩ := sb
+    simp only
+    have hnp : ∀ q, strPad size e2 ≠ .panic q := by
+      intro q
+      rcases size with ⟨len, nl⟩ | bs | bs
+      · simp only [strPad]; split <;> simp
+      · have : bs ≠ 0 := by simpa [Enc.strAttrsOk] using hattr
+        simp only [strPad, this, if_false]; split <;> simp
+      · have : bs ≠ 0 := by simpa [Enc.strAttrsOk] using hattr
+        simp only [strPad, this, if_false]; split <;> simp
+    cases hpd : strPad size e2 with
+    | ok e3 => simp
+    | err c => simp
+    | panic q => exact absurd hpd (hnp q)
+
+/-- a typed, sane argument that is not `argOk` is an integer that does not fit, a register in an
+immediate-only parameter, or a string too large for its buffer: error or warning -/
+theorem bad_arg_diagnosed (st : EncState) (e : Enc) (a : Arg)
+    (ht : argTyped e a = true) (hs : argSane st e a = true) (h0 : e.isArg0 = false)
+    (hp : e.isPadding = false) (hbad : argOk st e a = false) :
+    (∃ c, encodeOne st e a = .err c) ∨ (e.alwaysImmediate && a.isReg) = true := by
+  cases e with
+  | int w s z imm =>
+    cases z with
+    | true => simp [Enc.isArg0] at h0
+    | false =>
+      cases a <;> simp [argTyped, Arg.ty, Enc.ty] at ht
+      rename_i v reg
+      simp only [argOk, ht, Bool.and_true, Bool.and_eq_false_iff] at hbad
+      rcases hbad with hfit | hreg
+      · left
+        have hw : w ≠ .w4 := by
+          intro hw; subst hw; simp [fitsInt, ht] at hfit
+        exact ⟨_, int_misfit_is_error st w s imm v reg hw hfit⟩
+      · right
+        simp only [Bool.not_eq_false', Bool.and_eq_true] at hreg
+        simp [Enc.alwaysImmediate, Arg.isReg, hreg.1, hreg.2]
+  | jumpOffset =>
+    cases a <;> simp [argTyped, Arg.ty, Enc.ty, Enc.regOk, Arg.isReg] at ht
+    simp [argOk, ht] at hbad
+  | jumpTime =>
+    cases a <;> simp [argTyped, Arg.ty, Enc.ty, Enc.regOk, Arg.isReg] at ht
+    simp [argOk, ht] at hbad
+  | padding w => simp [Enc.isPadding] at hp
+  | float imm =>
+    cases a <;> simp [argTyped, Arg.ty, Enc.ty] at ht
+    rename_i b reg
+    right
+    simp only [argOk, Bool.not_eq_false', Bool.and_eq_true] at hbad
+    simp [Enc.alwaysImmediate, Arg.isReg, hbad.1, hbad.2]
+  | str size mask furibug =>
+    cases a <;> simp [argTyped, Arg.ty, Enc.ty] at ht
+    rename_i s
+    left
+    rcases size with ⟨len, nl⟩ | bs | bs
+    · simp [argOk, strLayoutOk, ht] at hbad
+      exact ⟨_, by
+        simp only [encodeOne, expectString]
+        exact misfit_diagnosed_partial st len nl mask furibug s (by omega)⟩
+    · simp [argOk, strLayoutOk, ht] at hbad
+    · simp only [argSane, decide_eq_true_eq] at hs
+      simp [argOk, strLayoutOk, ht] at hbad
+      omega
+
+/-- outcome of the loop on a typed call: never a panic; if some argument is not `ArgsOk`, an
+error or at least one warning -/
+def Diagnosed (bad : Bool) : Outcome EncOut → Prop
+  | .panic _ => False
+  | .err _ => True
+  | .ok o => bad = true → o.warnings ≠ []
+
+theorem encLoop_diagnosed (es : Abi) : ∀ (k : Nat) (args : List Arg) (st : EncState),
+    (∀ e ∈ es, e.isArg0 = false) → (∀ e ∈ es, e.strAttrsOk = true) →
+    callTyped st es args = true →
+    Diagnosed (!argsOkLoop st es args) (encLoop k es args st) := by
+  induction es with
+  | nil =>
+    intro k args st _ _ ht
+    simp only [callTyped] at ht
+    simp [encLoop, Diagnosed, argsOkLoop, ht]
+  | cons e es ih =>
+    intro k args st hna0 hattr ht
+    have hna0' : ∀ e' ∈ es, e'.isArg0 = false := fun e' he' => hna0 e' (List.mem_cons_of_mem _ he')
+    have hattr' : ∀ e' ∈ es, e'.strAttrsOk = true := fun e' he' => hattr e' (List.mem_cons_of_mem _ he')
+    by_cases hp : e.isPadding = true
+    · simp only [callTyped, hp, if_true] at ht
+      have := ih k args st hna0' hattr' ht
+      simp only [encLoop, hp, if_true, argsOkLoop]
+      cases h2 : encLoop k es args st with
+      | ok o => rw [h2] at this; simpa [Diagnosed] using this
+      | err c => simp [Diagnosed]
+      | panic p => rw [h2] at this; exact this
+    · have hp' : e.isPadding = false := by simpa using hp
+      cases args with
+      | nil => simp [callTyped, hp'] at ht
+      | cons a as =>
+        simp only [callTyped, hp', Bool.false_eq_true, if_false, Bool.and_eq_true] at ht
+        obtain ⟨⟨hta, hsa⟩, htr⟩ := ht
+        have he0 := hna0 e (List.mem_cons_self ..)
+        have hea := hattr e (List.mem_cons_self ..)
+        simp only [encLoop, hp', Bool.false_eq_true, if_false, argsOkLoop]
+        split
+        · simp [Diagnosed]
+        · cases h1 : encodeOne st e a with
+          | panic p => exact absurd h1 (encodeOne_no_panic st e a hta hea he0 hp' p)
+          | err c => simp [Diagnosed]
+          | ok r =>
+            obtain ⟨bytes, st1⟩ := r
+            simp only
+            have hst : stateAfter st e a = st1 := stateAfter_eq st e a bytes st1 h1
+            rw [hst] at htr
+            have hrec := ih (k + 1) as st1 hna0' hattr' htr
+            cases h2 : encLoop (k + 1) es as st1 with
+            | panic p => rw [h2] at hrec; exact hrec
+            | err c => simp [Diagnosed]
+            | ok o =>
+              rw [h2] at hrec
+              simp only [Diagnosed] at hrec ⊢
+              intro hbad
+              simp only [hst, Bool.not_eq_true', Bool.and_eq_false_iff] at hbad
+              rcases hbad with hb | hb
+              · rcases bad_arg_diagnosed st e a hta hsa he0 hp' hb with ⟨c, hc⟩ | hw
+                · rw [h1] at hc; cases hc
+                · simp [hw]
+              · have := hrec (by simp [hb])
+                simp [this]
+
+/-- the whole call, `arg0` parameter included (an immediate `i32`) -/
+def CallTyped (st : EncState) (abi : Abi) (args : List Arg) : Bool :=
+  match abi with
+  | [] => callTyped st [] args
+  | e :: es =>
+    if e.isArg0 then
+      match args with
+      | .int v false :: as => i32Range v && callTyped st es as
+      | _ => false
+    else callTyped st (e :: es) args
+
+/-- **Misfits are diagnosed, and nothing panics.**  For every valid signature and every call
+whose arguments have the parameters' types (registers only where `checkCall` lets them through,
+`i32` integers, NUL-free strings): `encode_args` never panics, and if the argument list is not
+`ArgsOk` - an integer outside its field, a register in an immediate-only parameter, a string
+too large for its buffer, a register after the mask bits ran out - the result is an error or
+carries at least one warning.  (With an `arg0` parameter no argument may be a register: see
+`arg0_shifts_mask`; the real timelines have no registers.) -/
+theorem misfit_diagnosed (st : EncState) (abi : Abi) (args : List Arg)
+    (hv : validAbi abi = true) (ht : CallTyped st abi args = true)
+    (harg0 : abi.any Enc.isArg0 = true → args.any Arg.isReg = false) :
+    match encodeArgs true st abi args with
+    | .ok (_, w, _) => ArgsOk st abi args = false → w ≠ []
+    | .err _ => True
+    | .panic _ => False := by
+  have ha0 := validAbi_arg0_tail abi hv
+  have hattr := validAbi_strAttrs abi hv
+  unfold encodeArgs
+  simp only [Bool.not_true, Bool.false_and, Bool.false_eq_true, if_false]
+  cases abi with
+  | nil =>
+    simp only [CallTyped] at ht
+    have := encLoop_diagnosed [] 0 args st (by simp) (by simp) ht
+    simp only [encodePlain, ArgsOk]
+    cases h : encLoop 0 [] args st with
+    | ok o => rw [h] at this; simpa [Diagnosed] using this
+    | err c => simp
+    | panic p => rw [h] at this; exact this
+  | cons e es =>
+    simp only [List.drop_one, List.tail_cons] at ha0
+    by_cases h0 : e.isArg0 = true
+    · simp only [h0, if_true]
+      simp only [CallTyped, h0, if_true] at ht
+      cases args with
+      | nil => simp at ht
+      | cons a as =>
+        cases a with
+        | int v reg =>
+          cases reg with
+          | true => simp at ht
+          | false =>
+            simp only [Bool.and_eq_true] at ht
+            have hnoreg : as.any Arg.isReg = false := by
+              have := harg0 (by simp [h0])
+              simpa [Arg.isReg] using this
+            have hloop := encLoop_diagnosed es 0 as st ha0 (fun e he => hattr e (List.mem_cons_of_mem _ he)) ht.2
+            simp only [Arg.isReg, Bool.false_eq_true, if_false, expectInt]
+            cases hfit : fitsInt .w2 true v with
+            | false => simp
+            | true =>
+              simp only [Bool.not_true, Bool.false_eq_true, if_false, encodePlain]
+              cases h : encLoop 0 es as st with
+              | ok o =>
+                rw [h] at hloop
+                simp only [Diagnosed] at hloop
+                intro hbad
+                cases e with
+                | int w sg z imm =>
+                  simp only [ArgsOk, h0, if_true, hfit, Bool.true_and, hnoreg, Bool.not_false, Bool.and_true] at hbad
+                  exact hloop (by simp [hbad])
+                | jumpOffset => simp [Enc.isArg0] at h0
+                | jumpTime => simp [Enc.isArg0] at h0
+                | padding w => simp [Enc.isArg0] at h0
+                | float imm => simp [Enc.isArg0] at h0
+                | str sz m f => simp [Enc.isArg0] at h0
+              | err c => simp
+              | panic p => rw [h] at hloop; exact hloop
+        | float b r => simp at ht
+        | str s => simp at ht
+    · have h0' : e.isArg0 = false := by simpa using h0
+      simp only [h0', Bool.false_eq_true, if_false]
+      simp only [CallTyped, h0', Bool.false_eq_true, if_false] at ht
+      have hall : ∀ e' ∈ e :: es, e'.isArg0 = false := by
+        intro e' he'
+        cases he' with
+        | head => exact h0'
+        | tail _ h => exact ha0 e' h
+      have hloop := encLoop_diagnosed (e :: es) 0 args st hall hattr ht
+      simp only [encodePlain, ArgsOk, h0', Bool.false_eq_true, if_false]
+      cases h : encLoop 0 (e :: es) args st with
+      | ok o => rw [h] at hloop; simpa [Diagnosed] using hloop
+      | err c => simp
+      | panic p => rw [h] at hloop; exact hloop
+
+/-- the hypotheses of `misfit_diagnosed` on calls that are not `ArgsOk` for four different reasons -/
+example :
+    let abi : Abi := [.int .w1 false false false, .padding true, .float true, .str (.fixed 4 false) ⟨7, 1, 2⟩ false]
+    validAbi abi = true ∧
+    CallTyped none abi [.int 300 false, .float 0 false, .str [0x61]] = true ∧
+    ArgsOk none abi [.int 300 false, .float 0 false, .str [0x61]] = false ∧
+    CallTyped none abi [.int 3 false, .float 0 true, .str [0x61]] = true ∧
+    ArgsOk none abi [.int 3 false, .float 0 true, .str [0x61]] = false ∧
+    CallTyped none abi [.int 3 true, .float 0 false, .str [0x61, 0x62, 0x63, 0x64]] = true ∧
+    ArgsOk none abi [.int 3 true, .float 0 false, .str [0x61, 0x62, 0x63, 0x64]] = false := by
+  decide
+
+/-- a typed call is one that `checkCall` (arity, types, constant positions) lets through -/
+theorem callTyped_checks (es : Abi) : ∀ (st : EncState) (args : List Arg), callTyped st es args = true →
+    args.length = (es.filter Enc.contributes).length ∧
+    checkTypes (es.filter Enc.contributes) args = .ok () ∧
+    checkConst (es.filter Enc.contributes) args = .ok () := by
+  induction es with
+  | nil =>
+    intro st args h
+    simp only [callTyped, List.isEmpty_iff] at h
+    subst h
+    exact ⟨rfl, rfl, rfl⟩
+  | cons e es ih =>
+    intro st args h
+    by_cases hp : e.isPadding = true
+    · have hc : Enc.contributes e = false := by simp [Enc.contributes, hp]
+      simp only [callTyped, hp, if_true] at h
+      simpa [List.filter_cons, hc] using ih st args h
+    · have hp' : e.isPadding = false := by simpa using hp
+      have hc : Enc.contributes e = true := by simp [Enc.contributes, hp']
+      cases args with
+      | nil => simp [callTyped, hp'] at h
+      | cons a as =>
+        simp only [callTyped, hp', Bool.false_eq_true, if_false, Bool.and_eq_true] at h
+        obtain ⟨⟨hta, _⟩, htr⟩ := h
+        obtain ⟨h1, h2, h3⟩ := ih _ as htr
+        simp only [argTyped, Bool.and_eq_true, Bool.or_eq_true, Bool.not_eq_true'] at hta
+        have hreg : (!e.regOk && a.isReg) = false := by
+          rcases hta.1.2 with h | h <;> simp [h]
+        refine ⟨by simp [List.filter_cons, hc, h1], ?_, ?_⟩
+        · simp only [List.filter_cons, hc, if_true, checkTypes, hta.1.1, h2]
+        · simp only [List.filter_cons, hc, if_true, checkConst, hreg, Bool.false_eq_true, if_false, h3]
+
+theorem callTyped_checkCall (st : EncState) (abi : Abi) (args : List Arg)
+    (h : callTyped st abi args = true) : checkCall abi args = .ok () := by
+  obtain ⟨h1, h2, h3⟩ := callTyped_checks abi st args h
+  simp [checkCall, h1, h2, h3]
+
+
 /-- a register in a position that only takes constants (`o`, `t`, `arg0`) is rejected before
 lowering: the first such position in the (non-padding) parameter list decides -/
 theorem const_position_rejects_register (e : Enc) (a : Arg) (es : Abi) (as : List Arg)
@@ -597,17 +1005,15 @@ theorem const_position_rejects_register (e : Enc) (a : Arg) (es : Abi) (as : Lis
   simp [checkConst, h1, h2]
 
 /-- a register in an `imm` parameter is written as an immediate *with a warning* -/
-theorem imm_register_warns (st : EncState) (w : IntW) (signed : Bool) (v : Int) :
+theorem imm_register_warns (st : EncState) (w : IntW) (signed : Bool) (v : Int)
+    (hfit : fitsInt w signed v = true) :
     ∃ raw st', encodeArgs true st [.int w signed false true] [.int v true]
       = .ok (raw, ["non-constant expression in immediate argument"], st') ∧ raw.mask = 0 := by
   refine ⟨⟨leBytes w.bytes (wrapTo w.bytes v), 0, none⟩, st, ?_, rfl⟩
   simp [encodeArgs, Enc.isArg0, encodePlain, encLoop, Enc.isPadding, encodeOne, expectInt,
-    Enc.alwaysImmediate, Arg.isReg]
+    Enc.alwaysImmediate, Arg.isReg, hfit]
 
 /-! ## the signature validator and the call checks -/
-
-/-- `validate` accepts `bs=0` (the finding above starts here) -/
-theorem validAbi_accepts_zero_block : validAbi [.str (.pascal 0) ⟨0, 0, 0⟩ false] = true := by decide
 
 /-- the four rules, on examples that differ in exactly one of them -/
 example : validAbi [.int .w4 true false false, .jumpOffset, .jumpTime] = true
